@@ -1,5 +1,6 @@
 import SnaxVerif.Lemmas.Affine
 import SnaxVerif.Lemmas.StridePattern
+import SnaxVerif.Lemmas.StridePatternZ
 import SnaxVerif.Lemmas.PackBits
 import SnaxVerif.Lemmas.PackOps
 import SnaxVerif.Lemmas.AffineTransform
@@ -150,6 +151,34 @@ example : Stride.offs [(2, 1), (1, 7), (3, 2)] = [0, 1, 2, 3, 4, 5] ∧
     Stride.canonLoops [(2, 1), (1, 7), (3, 2)] = [(6, 1)] := by decide
 example : (Stride.Pattern.mk [2, 3] [1, 2] [0, 8]).canonicalize = Stride.Pattern.mk [2, 3] [1, 2] [0, 8] := by
   decide
+
+/-! ### (1, second deepening) the loop over integer bounds -/
+
+open Stride in
+/-- The Python loop run on `IntAttr` bounds (`stepZ`, nothing refuses a negative bound) is the
+natural-bound model on the property's domain: for non-negative bounds the canonical loops are the
+same, hence the address sequence is preserved … -/
+theorem spCanonZ_seq (p : List LoopZ) (nonneg : ∀ x ∈ p, 0 ≤ x.1) : offsZ (canonLoopsZ p) = offsZ p := by
+  obtain ⟨q, rfl⟩ := exists_nat_of_nonneg p nonneg
+  rw [canonLoopsZ_toZ, offsZ_toZ, offsZ_toZ, canonLoops_offs]
+
+open Stride in
+/-- … and canonicalisation is idempotent. -/
+theorem spCanonZ_idem (p : List LoopZ) (nonneg : ∀ x ∈ p, 0 ≤ x.1) :
+    canonLoopsZ (canonLoopsZ p) = canonLoopsZ p := by
+  obtain ⟨q, rfl⟩ := exists_nat_of_nonneg p nonneg
+  rw [canonLoopsZ_toZ, canonLoopsZ_toZ, canonLoops_idem]
+
+open Stride in
+theorem spCanonZ_agrees (q : List Loop) : canonLoopsZ (q.map toZ) = (canonLoops q).map toZ :=
+  canonLoopsZ_toZ q
+
+/-- Outside the property's quantifier (a negative trip count means nothing to the streamer's loop
+counters, which are unsigned): on negative bounds the loop merges `(-1, 3), (-1, -3)` into `(1, 3)` —
+an empty nest becomes a one-point nest — and a second pass removes it. Modelled, compared with the real
+code on every run, not claimed. -/
+example : Stride.canonLoopsZ [(-1, 3), (-1, -3)] = [(1, 3)] ∧ Stride.canonLoopsZ [(1, 3)] = [] ∧
+    Stride.offsZ [(-1, 3), (-1, -3)] = [] ∧ Stride.offsZ [(1, 3)] = [0] := by decide
 
 /-! ## (2) `pack_bitlist` -/
 open Pack in
